@@ -110,6 +110,23 @@ Proof.
   destruct Hf as [Hf|[Hf|[Hf|[]]]]; subst f; cbn; repeat constructor.
 Qed.
 
+(* nested constant expressions: N3(a0: None), N2(a0: N3) and Tuple[Tuple[None], N3] never read their
+   input (at any depth, through the class table); ND(a0: None = None) has a default, so N2D(a0: ND) does read *)
+Definition cE : senv :=
+  [ {| sc_kind := KNamed; sc_name := "N3"; sc_fields := [ {| sf_name := "a0"; sf_ty := SNoneT; sf_default := None; sf_opt := false |} ] |};
+    {| sc_kind := KNamed; sc_name := "N2"; sc_fields := [ {| sf_name := "a0"; sf_ty := SNamed "N3"; sf_default := None; sf_opt := false |} ] |};
+    {| sc_kind := KNamed; sc_name := "ND"; sc_fields := [ {| sf_name := "a0"; sf_ty := SNoneT; sf_default := Some VNone; sf_opt := false |} ] |};
+    {| sc_kind := KNamed; sc_name := "N2D"; sc_fields := [ {| sf_name := "a0"; sf_ty := SNamed "ND"; sf_default := None; sf_opt := false |} ] |};
+    {| sc_kind := KTyped; sc_name := "TK"; sc_fields := [ {| sf_name := "k"; sf_ty := SNamed "N2"; sf_default := None; sf_opt := false |} ] |} ].
+Example C03_nested_constants :
+  uk cE ntP VNone (cu true (SNamed "N2")) = Ok (VNT "N2" [VNT "N3" [VNone]]) /\
+  uk cE ntP (VList []) (cu true (SNamed "N2")) = Ok (VNT "N2" [VNT "N3" [VNone]]) /\
+  uk cE ntP (VInt 5) (cu true (STupleFix [STupleFix [SNoneT]; SNamed "N3"])) = Ok (VTuple [VTuple [VNone]; VNT "N3" [VNone]]) /\
+  uk cE ntP (VInt 5) (cu true (STyped "TK")) = Ok (VDict [(VStr "k", VNT "N2" [VNT "N3" [VNone]])]) /\
+  uk cE ntP VNone (cu true (SNamed "N2D")) = Exn XTypeError /\
+  uk cE ntP (VList [VInt 5]) (cu true (SNamed "N2D")) = Ok (VNT "N2D" [VNT "ND" [VNone]]).
+Proof. repeat split; vm_compute; reflexivity. Qed.
+
 Example C03_typed_optional_key :
   dec (STyped "TD") (VDict [(VStr "zz", VNone); (VStr "r", VList [VStr "2"])]) = Ok (VDict [(VStr "r", VList [VInt 2])]) /\
   dec (STyped "TD") (VDict [(VStr "o", VStr "1"); (VStr "r", VList [])]) = Ok (VDict [(VStr "r", VList []); (VStr "o", VInt 1)]) /\
